@@ -1,7 +1,7 @@
 #!/bin/sh
 # tools/save_seed.sh <Cxx> <variant> "<confirm line>" "<checks that catch it>"  -- copy a confirmed seeded defect into /verif/seeded/
 id=$1; v=$2; sd=/tmp/seed-$id/$v; dst=/verif/seeded/$id-$v
-mkdir -p $dst && cp -r $sd/. $dst/ && rm -rf $dst/*.log $dst/tmp* 2>/dev/null
+mkdir -p $dst && cp -r $sd/. $dst/ && rm -rf $dst/*.log $dst/tmp* $dst/work 2>/dev/null
 python3 - "$id" "$v" "$3" "$4" <<'PY'
 import json,sys
 id,v,confirm,caught=sys.argv[1:5]
